@@ -494,6 +494,10 @@ func (t *WeightedMerkleTrie) commit(node Node, batcher storage.Batcher, collapse
 		}
 		if level == collapseLevel {
 			n.Children = [16]Node{}
+			createdChan <- n.Hash()
+			if !bytes.Equal(prevHash, n.Hash()) {
+				deleteChan <- prevHash
+			}
 			return &hashNode{
 				hash:   n.Hash(),
 				weight: n.Weight(),
